@@ -393,12 +393,30 @@ func addShape(t *rapid.T, g *G, o Opts) {
 			all := ri(t, 0, 2, "qall") != 0
 			for i := 0; i < 2; i++ {
 				if all || ri(t, 0, 3, "q") != 0 {
-					pr[i].Prec = ri(t, 1, 2, "lvl")
+					pr[i].Prec = []int{1, 2, 2, 10, 12, 20, 100}[ri(t, 0, 6, "lvl")]
 					pr[i].Right = ri(t, 0, 3, "r") == 0
 				}
 			}
 		}
 		rules = []Rule{{Name: hn("e"), Prods: pr}}
+		if o.Prec && ri(t, 0, 3, "third") == 0 {
+			// a third action in an entry whose other two are a precedence-resolvable shift/reduce pair:
+			// after "e OP e" on OP there is the shift, the reduce of the binary production and the
+			// reduce of an empty rule. Precedence says nothing about three-way entries.
+			if pr[0].Prec == 0 {
+				pr[0].Prec = 1
+			}
+			q := Prod{Terms: []Term{ruleTerm(hn("e")), tk(0), ruleTerm(hn("e")), ruleTerm(hn("m")), tk(0), tk(2)}, Prec: pr[0].Prec, Right: pr[0].Right}
+			if rapid.Bool().Draw(t, "thirdFirst") {
+				pr = []Prod{q, pr[0], pr[2]}
+			} else {
+				pr = []Prod{pr[0], q, pr[2]}
+			}
+			rules = []Rule{{Name: hn("e"), Prods: pr}, {Name: hn("m"), Prods: []Prod{P()}}}
+			if rapid.Bool().Draw(t, "mFirst") {
+				rules[0], rules[1] = rules[1], rules[0]
+			}
+		}
 	case 9: // the same element under the same sugar twice, with different separators / contexts
 		entry = ruleTerm(hn("s"))
 		sugar := []Kind{KListOpt, KList}[ri(t, 0, 1, "lk")]
@@ -477,6 +495,8 @@ type OpInfo struct {
 	Right bool
 }
 
+var levelGaps = []int{1, 1, 1, 2, 2, 3, 4, 5, 7, 9, 10, 11, 90, 100, 985}
+
 func GenExpr(t *rapid.T) *ExprSpec {
 	g := &G{}
 	es := &ExprSpec{G: g, Ops: map[string]OpInfo{}}
@@ -493,7 +513,9 @@ func GenExpr(t *rapid.T) *ExprSpec {
 	lv := make([]int, 0, nLevels)
 	cur := 0
 	for l := 0; l < nLevels; l++ {
-		cur += ri(t, 1, 3, "gap")
+		// small gaps mostly; now and then a jump, so that levels with several digits and
+		// trailing zeros (10, 20, 100, 1200) occur next to single-digit ones
+		cur += levelGaps[ri(t, 0, len(levelGaps)-1, "gap")]
 		lv = append(lv, cur)
 	}
 	var prods []Prod
